@@ -886,7 +886,7 @@ def check_hook_siblings(ctx, rule='R2-driver-symmetry'):
         where = set()
         for pos, s_, g in D.sync_sites(d):
             if g == want:
-                where.add('inside' if pos not in ('pre', 'post') else 'outside')
+                where.add('inside' if pos in ('try-before-fields', 'try-after-fields') else 'outside')
         by.setdefault(d.kind, {})[d.origin] = (where, d)
     for kind, m in sorted(by.items()):
         if len(m) != 2:
